@@ -234,6 +234,7 @@ func genCase(t *rapid.T) (*Case, []string) {
 			h = kit.WithTWCC(h, twccID, rapid.Uint16().Draw(t, "tw"))
 		}
 		c.OutHeader, _ = h.Marshal()
+		c.OutPadding = h.PaddingSize
 		sizeGen := rapid.OneOf(rapid.SampledFrom([]int{0, 1459, 1460, 1461, 1500, 2000, 65535}), rapid.IntRange(1380, 1620), rapid.IntRange(0, 65535))
 		c.OutPayload = sizeGen.Draw(t, "payload")
 		for i, n := 0, rapid.IntRange(0, 5).Draw(t, "more"); i < n; i++ {
